@@ -18,11 +18,14 @@ theorem href_decodes (p : String) : decodeTarget (hrefText p) = p :=
 
 /-- the emitted text is a plain absolute-path reference: no scheme is ever detected in it and
     nothing of it is cut off as query or fragment, so "dereferencing it as sent" addresses the
-    path above (this is what failed for `a:b.vcf` before the repair) -/
-theorem href_is_path_only (p : String) :
+    path above (this is what failed for `a:b.vcf` before the repair).  The hypothesis excludes
+    paths that start with `//`: such a text is a network-path reference (RFC 3986 §4.2) whatever
+    the encoding; the server emits one only in answer to a request-target that itself starts
+    with `//` (see DESIGN.md, observations). -/
+theorem href_is_path_only (p : String) (hp : Url.startsDoubleSlash p.toList = false) :
     Url.has_scheme (hrefText p) = false ∧ Url.urlsplit_path (hrefText p) = hrefText p ∧
     '?' ∉ (hrefText p).toList ∧ '#' ∉ (hrefText p).toList ∧ ' ' ∉ (hrefText p).toList :=
-  ⟨Url.has_scheme_quote p, Url.urlsplit_path_quote p, (Url.quote_no_special p).1,
+  ⟨Url.has_scheme_quote p, Url.urlsplit_path_quote p hp, (Url.quote_no_special p).1,
     (Url.quote_no_special p).2.1, (Url.quote_no_special p).2.2⟩
 
 /-- collection hrefs end in a slash -/
